@@ -23,6 +23,18 @@ Proof. vm_compute. split; discriminate. Qed.
 Lemma gap_whole_seconds : gen_safe_gap mod sec = 0 /\ 0 < safe_gap.
 Proof. vm_compute. split; reflexivity. Qed.
 
+(* Model.expiry_of / nf_of replace a non-positive option by the default: newOptions still does
+   (an option WithExpiry(0) would otherwise reach SETEX with 0 s = a persistent key, see
+   Pinned.options_fallback_dropped_refuted) *)
+Lemma options_fallback_present : gen_options_fallback = true.
+Proof. vm_compute. reflexivity. Qed.
+
+(* Codec.unmarshal_any yields json.Number for a JSON number: jsonx.Unmarshal still decodes with
+   UseNumber() (a float64 there would round primary keys beyond 2^53, see
+   Pinned.index_hit_float_normalised_refuted) *)
+Lemma decoded_numbers_are_json_number : gen_jsonx_usenumber = true.
+Proof. vm_compute. reflexivity. Qed.
+
 Lemma retry_table_sane :
   0 < gen_first_delay /\ 0 < gen_wheel_interval /\
   forallb (fun ab : Z * Z => (0 <? fst ab) && (0 <? snd ab)) gen_retry = true.
